@@ -6,10 +6,10 @@ package main
 
 import (
 	"fmt"
-	"path/filepath"
 	"go/constant"
 	"go/token"
 	"go/types"
+	"path/filepath"
 	"slices"
 	"strings"
 
@@ -433,7 +433,6 @@ func (e *Engine) visitInstr(fr *frame, instr ssa.Instruction) (ret bool, jumped 
 var opaquePrefixes = []string{
 	"go.opentelemetry.io/otel/attribute.",
 	"go.opentelemetry.io/otel/metric.With",
-	"go.opentelemetry.io/otel/trace.With",
 }
 
 func deref(t types.Type) types.Type {
